@@ -1171,7 +1171,8 @@ def rest_api(rng, name, numeric=False, nmethods=10):
     ver = "v1"
     pkg = f"vp.{name}.{ver}"
     P = "." + pkg
-    f = File(f"vp/{name}/{ver}/{name}.proto", pkg, deps=list(STD_DEPS))
+    f = File(f"vp/{name}/{ver}/{name}.proto", pkg, deps=list(STD_DEPS) + ["google/iam/v1/iam_policy.proto", "google/iam/v1/policy.proto"])
+    api.dep_mods += ["google.iam.v1.iam_policy_pb2", "google.iam.v1.policy_pb2"]
     api.add(f)
     color = f.enum("Color", "COLOR_UNSPECIFIED", "RED", "GREEN", "BLUE", numbers=[0, 1, 2, 5])
     pay = f.message("Payload")
@@ -1322,6 +1323,12 @@ def rest_api(rng, name, numeric=False, nmethods=10):
         q.field("q_leaf", P + ".Leaf")
         s.rpc(f"Free{j}", P + f".Free{j}", P + ".Reply", http={verb: f"/{ver}/{{name=frees/*}}{tail}"}, **({"body": body} if body else {}))
     tags.add("request-without-required-fields")
+    # request and reply of different kinds: a type of another package (a *_pb2 class) on one side only
+    s.rpc("ForeignIn", ".google.iam.v1.GetIamPolicyRequest", P + ".Reply", http={"get": f"/{ver}/{{resource=things/*}}:readPolicy"})
+    s.rpc("ForeignInBody", ".google.iam.v1.TestIamPermissionsRequest", P + ".Payload", http={"post": f"/{ver}/{{resource=things/*}}:probe"}, body="*")
+    s.rpc("ForeignOut", P + ".Free0", ".google.iam.v1.Policy", http={"get": f"/{ver}/{{name=frees/*}}:policy"})
+    s.rpc("ForeignOutBody", P + ".Free1", ".google.iam.v1.TestIamPermissionsResponse", http={"post": f"/{ver}/{{name=frees/*}}:allowed"}, body="*")
+    tags.add("request-and-reply-of-different-package-kinds")
     # unbound + streaming
     s.rpc("Unbound", P + ".Req0", P + ".Reply")
     s.rpc("Upload", P + ".Req0", P + ".Reply", cs=True, http={"post": f"/{ver}/{{name=things/*}}:upload"}, body="*")
@@ -1402,9 +1409,12 @@ def flat_api(rng, name):
         # REQUIRED fields mentioned after fields that are not: parameters and assignments follow the declared order
         [["name", "count"], ["ratio", "count", "blob"]],
         [["sub"], ["sub", "sub.id", "name"]],
+        # the no-argument overload ("") declared before / between the others: it contributes nothing and ends nothing
+        [[], ["name", "flag"]],
+        [["name"], [], ["name", "opt_name", "tags"]],
     ]
-    dotted_containers = sig_sets[-5:-2]
-    required_late = sig_sets[-2:]
+    dotted_containers = sig_sets[-7:-4]
+    required_late = sig_sets[-4:]
     rng.shuffle(sig_sets)
     chosen = sig_sets[:rng.randint(8, 12)]
     if not any(x in chosen for x in dotted_containers):
@@ -1515,6 +1525,9 @@ IMPLICIT_FORMS = [
     ("int_var", {"get": "/v1/{parent=projects/*}/shards/{shard}"}, None),
     ("dstar", {"delete": "/v1/{name=things/**}"}, None),
     ("verb_order", {"post": "/v1/{table_name=projects/*/tables/*}:mutate"}, "*"),
+    # the primary binding may use the `custom` pattern (HEAD, OPTIONS, ...): its path template's variables count like any other's
+    ("custom_verb", {"custom": ("HEAD", "/v1/{name=things/*}")}, None),
+    ("custom_verb_two", {"custom": ("OPTIONS", "/v1/{parent=projects/*}/things/{thing_id}")}, None),
 ]
 
 
@@ -1559,7 +1572,10 @@ def routing_api(rng, name):
         api.info.setdefault("explicit", {})[f"Explicit{i}"] = label
     imps = list(IMPLICIT_FORMS)
     rng.shuffle(imps)
-    for i, (label, http, body) in enumerate(imps[:rng.randint(5, len(imps))]):
+    imps = imps[:rng.randint(5, len(imps))]
+    if not any("custom" in h_ for _, h_, _b in imps):
+        imps.append(next(x for x in IMPLICIT_FORMS if "custom" in x[1]))
+    for i, (label, http, body) in enumerate(imps):
         s.rpc(f"Implicit{i}", P + ".Req", P + ".Reply", http=http, body=body)
         tags.add("implicit:" + label)
         api.info.setdefault("implicit", {})[f"Implicit{i}"] = label
@@ -2308,7 +2324,9 @@ def autopop_api(rng, name, violation=None, plant=True, subpkg=False, selective=F
     if violation == "duplicate_of_unpopulated" or (roll < 0.4 and (not violation or not bad[violation]["selector"].endswith(".Untouched"))):
         # an entry that configures something else for a method: valid, and populates nothing (never next to a planted entry for the
         # same method: that entry would then be rejected as a duplicate, not for what it plants)
-        settings.insert(rng.randint(0, len(settings)), {"selector": f"{S}.Untouched", "long_running": {"initial_poll_delay": "3s"}})
+        pos_ = rng.randint(0, len(settings))
+        # (in half of these the entry that populates nothing comes FIRST: whatever is decided per library looks at every entry)
+        settings.insert(0 if roll < 0.2 or violation == "duplicate_of_unpopulated" else pos_, {"selector": f"{S}.Untouched", "long_running": {"initial_poll_delay": "3s"}})
     if violation and plant:
         settings.insert(rng.randint(0, len(settings)), bad[violation])
     api.info["method_settings"] = settings
@@ -2338,7 +2356,8 @@ MIXIN_METHODS = {
 }
 
 
-def mixin_api(rng, name, mixins, rules_mode, own_iam=None, add_iam=False, transport="grpc+rest", prefix="/v1", annex="random", unlisted=()):
+def mixin_api(rng, name, mixins, rules_mode, own_iam=None, add_iam=False, transport="grpc+rest", prefix="/v1", annex="random", unlisted=(),
+              internal_own=False):
     """Service YAML mixin configurations (C17).  rules_mode in {all, some, none}; own_iam: None or a list of IAM RPC
     names the API defines itself."""
     api = Api(name)
@@ -2438,7 +2457,15 @@ def mixin_api(rng, name, mixins, rules_mode, own_iam=None, add_iam=False, transp
             stray.append({"selector": sel, **{k: (v.replace("/v1/", prefix + "/") if isinstance(v, str) and v.startswith("/v1/") else v) for k, v in r0.items()}})
         api.tags.add("rules-for-unlisted-mixin:" + m)
     api.info["unlisted_with_rules"] = [m for m in unlisted if m not in mixins]
-    text = service_yaml(api, mixins=mixins, rules={m: [] for m in mixins},
+    pub_ = None
+    if internal_own and own_iam:
+        # selective generation in keep-as-internal mode with the API's own IAM RPCs left off the list: they live on as _<method>, and
+        # the IAM mixins yield to them all the same
+        listed_ = [f"{pkg}.{sv.name}.{m_.name}" for sv in f.pb.service for m_ in sv.method if m_.name not in own_iam]
+        pub_ = selective_publishing(pkg, listed_, internal=True)
+        api.tags.add("own-iam-rpcs-internal")
+    api.info["internal_own"] = bool(pub_)
+    text = service_yaml(api, mixins=mixins, rules={m: [] for m in mixins}, publishing=pub_,
                         extra_rules=shadowed + stray + [{"selector": sel, **r} for sel, r in doc_rules.items()])
     api.aux["service-yaml"] = ("svc.yaml", text)
     api.options = [f"transport={transport}", "autogen-snippets=false"] + (["add-iam-methods"] if add_iam else [])
